@@ -2,7 +2,7 @@ HOOKS = {
     "guard": "verif",
     "enable": "go build -tags verif (bin/check builds harness/cmd/vdrive with -tags verif against /repo's working tree)",
     "baseline_off_cmd": "cd /repo && GOFLAGS=-mod=mod GOPROXY=off GOSUMDB=off go test -vet=off -count=1 ./...",
-    "source_commits": [],
+    "source_commits": ["2c3dbc0"],
     "add_only": True,
 }
 NOTES = ("All checks: bin/check <id> --tier quick|thorough; exit 0 held / 1 VIOLATION / 2 machinery failure (no verdict). "
@@ -90,5 +90,20 @@ CHECKS["C15"] = {
     "text": "A render is modelled as a sequence of Write calls with a checked/unchecked flag per write site and a scripted destination (fails from k, only at k, partial at k); TLC checks on the implementation-shaped write sequences of the text, CSV, JSON and Markdown emitters over all small tables that every (k, mode) ends in an error with a prefix accepted; on the real library every small table of the bounded models and random tables are rendered by every renderer once fault-free (counting writer: m calls, reference bytes) and then for every k in 1..m x 3 modes under recover; TLC validates for every fault run: error non-nil, no panic, accepted bytes a prefix.",
     "note": "Trusted: the scripted writer and bytes.HasPrefix in the driver. Fault points are enumerated completely per table; tables are bounded/sampled. HTML's write granularity is html/template's and is enumerated as observed.",
     "technique": "TLA+ writer-fault model + exhaustive fault-point enumeration on the real renderers, validated by TLC",
+}
+CHECKS["C16"] = {
+    "text": "Design level: Concurrent.tla models N owners with private state stepping in any interleaving while the shared registry is extended; TLC checks that each owner's outputs equal those of its solo run (no variable is shared). Binding: every scenario (random creation paths, wrapper nestings, render sequences over all formats and decorations) first runs alone, then the same scenarios run on goroutines of their own (16-64 at a time, several rounds, seeded scheduling jitter) while another goroutine reads and extends the decoration registry; the driver is built with Go's race detector; each goroutine's log is validated by TLC as a trace of the sequential specification (full structural relations of every render) and every render's bytes are compared with the solo run's.",
+    "note": "Trusted: Go's race detector for the 'free of data races' clause (a data race leaves no trace event; reports count only with a library frame); byte comparison with the solo run in the driver. Interleavings are sampled by the Go scheduler, not enumerated.",
+    "technique": "TLA+ design model (no shared state) + concurrent replay under the race detector with per-goroutine TLC trace validation",
+}
+CHECKS["C17"] = {
+    "text": "Registry.tla models every operation as lock / body / unlock steps; TLC explores all interleavings of 3 processes x 2 operations over several program sets and checks mutual exclusion, that every lookup/listing is the answer of the sequential registry at its own body step, lookup soundness and the final state (last body-ordered registration wins, listing complete). Binding: the verif-build hook fires inside the critical section and stamps the order in which operations took effect; all 270 linearization orders produced by the model are forced onto the real registry from separate goroutines, free-running stress (8-16 goroutines) runs under the race detector, and a probe holds one operation inside its critical section while a second must stay blocked; RegistryTrace.tla validates every lookup and listing (sorted, duplicate-free, complete) against the sequential registry in hook order. The fail-closed clause is validated on sequential scenarios (registered, overwritten, built-in, unknown, case-variant names; SetDecorationNamed error and Render refusal).",
+    "note": "Trusted: the hook order (counter written under the registry's own lock), Go's race detector, a 40 ms timer that can only miss (never invent) a mutual-exclusion violation. Free-running interleavings are sampled.",
+    "technique": "TLA+ lock/body/unlock model checked by TLC + hook-ordered trace validation of forced, stress and probe runs under the race detector",
+}
+CHECKS["C19"] = {
+    "text": "Style-string resolution (case-insensitive sub-package section, texttable[.NAME], bare NAME, registered names win as a whole, unknown names give the empty decoration) is a TLA+ operator over the registry state; TLC enumerates registry states reachable by registering up to two extra names (ordinary, dotted, case variants, colliding with csv / CSV / texttable) crossed with every style string built from the listed names (upper case, texttable. prefix, trailing sections) plus the listing, checking that every listed name resolves to something that renders and that texttable.NAME = NAME; every case and random registries/styles run on the real library (one process per registry history) and TLC validates the dynamic type, the decoration identity, render status, and the listing (sorted, complete, every listed name renders).",
+    "note": "Trusted: reflection read of the wrapper's decoration; built-in names/default decoration are logged inputs. Where the statement is silent (unregistered NAME followed by sections) only consistency is demanded.",
+    "technique": MBT,
 }
 NOT_APPLICABLE = {}
